@@ -205,7 +205,24 @@ func (s *Server) CrashReport() string {
 			return string(b[i:e])
 		}
 	}
-	return ""
+	// no runtime crash: the last plain-text lines of the output (log.Fatal messages end up here)
+	var keep []string
+	for _, ln := range strings.Split(string(b), "\n") {
+		ascii := ln != ""
+		for i := 0; i < len(ln); i++ {
+			if ln[i] >= 0x80 {
+				ascii = false
+				break
+			}
+		}
+		if ascii && (strings.Contains(ln, "raftexample:") || strings.Contains(ln, "atal")) {
+			keep = append(keep, ln)
+		}
+	}
+	if len(keep) > 5 {
+		keep = keep[len(keep)-5:]
+	}
+	return strings.Join(keep, "\n")
 }
 
 // Stop kills the process (SIGKILL) and removes its directory.
